@@ -548,3 +548,53 @@ def c30(ops):
         if _sig(wf) != s:
             return "history %s: the workflow constructed by %s changed afterwards: %s -> %s" % (hist, op, s, _sig(wf))
     return None
+
+
+# ------------------------------------------------------------------ C36
+def c36(workflow, fail, x, flag_all):
+    from pydra.utils.messenger import AuditFlag
+    from pydra.engine.submitter import Submitter
+    E.reset()
+    R.clear()
+    del R.MSGS[:]
+    R.FLAGS["fail"] = bool(fail)
+    d = E.scratch()
+    res = err = None
+    try:
+        task = D.FlakyWf(x=x) if workflow else D.Flaky(x=x, tag=4)
+        try:
+            with Submitter(cache_root=d, worker="debug", audit_flags=AuditFlag.PROV, messengers=[D.ListMessenger()]) as sub:
+                res = sub(task, raise_errors=False)
+        except Exception as e:
+            err = e
+        results = []
+        for jd in job_dirs(d):
+            r = load(d, jd)
+            if r is not None:
+                results.append((jd, bool(r.errored)))
+    finally:
+        R.FLAGS["fail"] = False
+        E.cleanup(d)
+    T.reach()
+    msgs = list(R.MSGS)
+    by_id = {}
+    for m in msgs:
+        if "@id" in m:
+            by_id.setdefault(m["@id"], []).append(m)
+    acts = {k: v for k, v in by_id.items() if any("startedAtTime" in m or "endedAtTime" in m for m in v)}
+    desc = "%s fail=%s: %d messages" % ("workflow" if workflow else "task", fail, len(msgs))
+    n_exec = len(results)
+    if len(acts) != n_exec:
+        return "%s: %d audited activities for %d executed jobs (%s)" % (desc, len(acts), n_exec, results)
+    flags = []
+    for aid, ms in acts.items():
+        starts = [m for m in ms if "startedAtTime" in m]
+        ends = [m for m in ms if "endedAtTime" in m]
+        if len(starts) != 1 or len(ends) != 1:
+            return "%s: activity %s has %d start and %d end records" % (desc, aid, len(starts), len(ends))
+        if "errored" not in ends[0]:
+            return "%s: end record of %s carries no error flag" % (desc, aid)
+        flags.append(bool(ends[0]["errored"]))
+    if sorted(flags) != sorted(e for _, e in results):
+        return "%s: end-record error flags %s do not match the stored results %s" % (desc, sorted(flags), sorted(e for _, e in results))
+    return None
